@@ -72,3 +72,24 @@ __CPROVER_ensures((heap->tld->heap_backing != heap && g_default == heap) ==> (g_
 __CPROVER_ensures((heap->tld->heap_backing != heap && g_default != heap) ==> g_setdef_n == 0)
 __CPROVER_ensures((heap->tld->heap_backing != heap) ==> (g_first == heap ? heap->tld->heaps == heap->next : (heap->tld->heaps == g_first && heap->tld->heaps->next == heap->next)));
 #endif
+
+#ifdef VC_CBMC
+/* ---- mi_heap_destroy, per page: the page is declared empty and handed to the segment layer exactly once; blocks are not visited or freed one by one ---- */
+mi_heap_t* g_dheap; mi_tld_t* g_dtld; mi_page_t* g_dpage;
+size_t g_udf_n; mi_page_t* g_udf_p; int g_udf_delay; bool g_udf_override;
+void _mi_page_use_delayed_free(mi_page_t* page, mi_delayed_t delay, bool override_never)
+__CPROVER_requires(1) __CPROVER_assigns(g_udf_n, g_udf_p, g_udf_delay, g_udf_override)
+__CPROVER_ensures(g_udf_n == __CPROVER_old(g_udf_n) + 1 && g_udf_p == page && g_udf_delay == (int)delay && !g_udf_override == !override_never);
+size_t g_dspf_n; mi_page_t* g_dspf_p; bool g_dspf_force; mi_segments_tld_t* g_dspf_tld; size_t g_dspf_used; size_t g_dspf_udf;
+void _mi_segment_page_free(mi_page_t* page, bool force, mi_segments_tld_t* tld)
+__CPROVER_requires(1) __CPROVER_assigns(g_dspf_n, g_dspf_p, g_dspf_force, g_dspf_tld, g_dspf_used, g_dspf_udf)
+__CPROVER_ensures(g_dspf_n == __CPROVER_old(g_dspf_n) + 1 && g_dspf_p == page && !g_dspf_force == !force && g_dspf_tld == tld && g_dspf_used == page->used && g_dspf_udf == g_udf_n);
+static bool _mi_heap_page_destroy(mi_heap_t* heap, mi_page_queue_t* pq, mi_page_t* page, void* arg1, void* arg2)
+__CPROVER_requires(heap == g_dheap && page == g_dpage && g_udf_n == 0 && g_dspf_n == 0)
+__CPROVER_assigns(__CPROVER_object_whole(g_dpage), __CPROVER_object_whole(g_dtld), g_udf_n, g_udf_p, g_udf_delay, g_udf_override, g_dspf_n, g_dspf_p, g_dspf_force, g_dspf_tld, g_dspf_used, g_dspf_udf)
+/* first: no remote free may queue a block of this page on the heap any more */
+__CPROVER_ensures(g_udf_n == 1 && g_udf_p == page && g_udf_delay == (int)MI_NEVER_DELAYED_FREE && !g_udf_override)
+/* then the page -- detached, with no block counted as used -- goes to the segment layer exactly once, with the heap's own segment data */
+__CPROVER_ensures(g_dspf_n == 1 && g_dspf_p == page && !g_dspf_force && g_dspf_tld == &g_dtld->segments && g_dspf_used == 0 && g_dspf_udf == 1)
+__CPROVER_ensures(page->used == 0 && page->next == NULL && page->prev == NULL && __CPROVER_return_value);
+#endif
